@@ -122,7 +122,7 @@ static inline Parsed parse_file(const uint8_t* d, size_t n, const ReadOpts& ro =
         REF_REQ(idx == el.size(), "schema.tree", "schema tree consumes %zu of %zu elements", idx, el.size());
         derive_leaves(P.table);
         // row groups
-        int64_t file_rows = 0;
+        int64_t file_rows = 0; bool saw_new_minmax = false;
         const auto& rgs = F.get(4)->l;
         for (size_t g = 0; g < rgs.size(); g++) {
             const TV& R = rgs[g];
@@ -147,6 +147,7 @@ static inline Parsed parse_file(const uint8_t* d, size_t n, const ReadOpts& ro =
                 ci.total_uncompressed = (uint64_t)M.geti(6); ci.total_compressed = (uint64_t)M.geti(7);
                 ci.file_offset_field = (uint64_t)CC.geti(2);
                 ci.has_stats = M.has(12);
+                if (M.has(12) && (M.get(12)->has(5) || M.get(12)->has(6))) saw_new_minmax = true;
                 int64_t data_off = M.geti(9);
                 bool has_dict_off = M.has(11) && M.geti(11) > 0;
                 int64_t start = has_dict_off ? M.geti(11) : data_off;
@@ -247,6 +248,7 @@ static inline Parsed parse_file(const uint8_t* d, size_t n, const ReadOpts& ro =
                         if (DH.has(5)) {
                             const TV& S = *DH.get(5); pi.has_stats = true;
                             if (S.has(3)) { pi.st_has_nulls = true; pi.st_nulls = S.geti(3); }
+                            if (S.has(5) || S.has(6)) saw_new_minmax = true;
                             if (S.has(5) && S.has(6)) { pi.st_has_minmax = true; pi.st_max = S.get(5)->s; pi.st_min = S.get(6)->s; }
                             else if (S.has(1) && S.has(2)) { pi.st_has_minmax = true; pi.st_max = S.get(1)->s; pi.st_min = S.get(2)->s; }
                         }
@@ -282,6 +284,11 @@ static inline Parsed parse_file(const uint8_t* d, size_t n, const ReadOpts& ro =
             }
             file_rows += rg.rows;
             P.table.rgs.push_back(rg);
+        }
+        // parquet.thrift, ColumnOrder: "if these fields [min_value/max_value] are written to a Parquet file, column_orders must be written as well"
+        if (ro.strict && saw_new_minmax) {
+            REF_REQ(F.has(7), "footer.column_orders_missing", "statistics carry min_value/max_value but FileMetaData.column_orders is absent: their meaning is undefined");
+            REF_REQ(F.get(7)->l.size() == P.table.cols.size(), "footer.column_orders_count", "column_orders has %zu entries for %zu leaf columns", F.get(7)->l.size(), P.table.cols.size());
         }
         REF_REQ(file_rows == F.geti(3), "footer.num_rows", "row groups hold %lld rows, FileMetaData.num_rows is %lld", (long long)file_rows, (long long)F.geti(3));
         if (ro.strict) {
